@@ -58,6 +58,16 @@ Print Assumptions C18_interference_with_shared_write.
    files, no function other than init (and functions reachable only from init, and the
    inspected allow-list) writes a package-level variable, and no Codec method writes a
    receiver field.  Re-proved against the regenerated facts on every run. *)
+(* pkg_level_ok also covers references INTO package-level variables that leave them (a
+   pointer / slice / map element copied into a field, returned, passed on: pkg_var_refs) and
+   stores through a local copy of such a reference (elem-via-alias); codec_receiver_ok also
+   requires that no reference-typed codec field other than transferSyntax is handed out by a
+   method (event T).  NOT SEEN by the translator: stores through a reference after its second
+   hop (kept in a field and written by another function — only the first hop is reported, which
+   is why it must be allow-listed), what a callee does with a reference passed to it, aliasing
+   through interfaces, reflection and unsafe (absent: imports_ok).  These are covered
+   dynamically: table-altering streams and the codecs' own default-parameter objects in the
+   C10/C18 workloads (suites/contract/special.go). *)
 Theorem C18_facts_static_obligation : pkg_level_ok = true /\ codec_receiver_ok = true.
 Proof. exact facts_static_obligation. Qed.
 Print Assumptions C18_facts_static_obligation.
